@@ -218,7 +218,9 @@ def long_case(case, res):
             Y[k:] = 0
         ref = np.fft.ifft(np.fft.ifftshift(Y, axes=0), axis=0)
         e = float(np.max(np.abs(np.asarray(out.data) - ref)))
-        tol = 256 * eps * float(np.max(np.abs(x)))
+        # + the rounding of the phase argument 2 pi b n/N itself in double precision (|argument| <= 2 pi |b|), which the float64
+        #   reference shares
+        tol = (256 * eps + 8 * math.pi * abs(float(bex)) * float(np.finfo(np.float64).eps)) * float(np.max(np.abs(x)))
         if abs(bex - round(bex)) < 1e-9 and bex.denominator != 1:
             res.skipped["boundary bin open: shift within rounding of a whole bin (non-dyadic sample spacing)"] += 1
             continue
